@@ -64,3 +64,8 @@ func (s *Scheduler) VerifSetPause(d time.Duration) {
 func (s *Scheduler) VerifRunner() runner.Runner {
 	return s.taskRunner
 }
+
+// VerifCheckStatus exposes the dependency check of the scheduling loop (checkStatus) to the verification harness
+func VerifCheckStatus(p *scheduler.ExecutionGraph, stage *scheduler.Stage) bool {
+	return checkStatus(p, stage)
+}
